@@ -34,6 +34,7 @@ gvars == <<vars, hist, done, limit0>>
 
 GDtsQuick == {1, 8}
 GDtsFwd   == {1, 3, 8, 24}
+GDtsOdd   == {3, 24}
 GDtsBack  == {-8, -1, 1, 8}
 GDtsSim   == {-8, -1, 0, 1, 2, 3, 4, 8, 12, 24}
 GDtsNone  == {}
@@ -41,6 +42,7 @@ Rate2     == {2}
 Rates18   == {1, 8}
 Rate1     == {1}
 Rate8     == {8}
+GDtsSimFwd == {0, 1, 2, 3, 4, 8, 12, 24}
 RatesAll  == {1, 2, 8, Inf}
 KAll      == {"allow", "reserve", "cancel", "delay", "setlimit"}
 KNoDelay  == {"allow", "reserve", "cancel", "setlimit"}
